@@ -153,6 +153,20 @@ func c14Big(delta uint64, limit uint64) (flag string, ok bool) {
 func (r *c14run) emit(input, obs, class string) {
 	r.c.Case(input, obs)
 	r.c.Count(class)
+	if input[0] == 'D' || input[0] == 'R' {
+		// a hostile case may kill the process (fatal out-of-memory cannot be recovered):
+		// keep cases.txt and impl.txt in step, whole lines only
+		r.c.cases.Flush()
+		r.c.impl.Flush()
+	}
+}
+
+// inflight records the hostile input being executed, for the post-mortem of a fatal crash
+func (r *c14run) inflight(input string) {
+	if len(input) > 4096 {
+		input = input[:4096]
+	}
+	_ = os.WriteFile(filepath.Join(r.c.Out, "c14_inflight.txt"), []byte(input+"\n"), 0o644)
 }
 
 func c14Atou32(s string) (uint32, error) {
@@ -252,6 +266,7 @@ func (r *c14run) runCase(input, class string) error {
 		if err != nil {
 			return fmt.Errorf("D case with a command outside the table: %q", cmd)
 		}
+		r.inflight(input)
 		limit := uint64(m0.MaxPayloadLength(pver))
 		var obs string
 		delta, st := c14Guard(func() {
@@ -294,6 +309,7 @@ func (r *c14run) runCase(input, class string) error {
 		if e3 != nil || err != nil {
 			return bad
 		}
+		r.inflight(input)
 		// the declared limit of the frame's type (10 KiB discard chunk when no type is known)
 		limit, hcmd, hlen := uint64(0), "", uint32(0)
 		if len(stream) >= 24 {
@@ -392,7 +408,7 @@ func runC14(c *Ctx) error {
 			}
 		}
 	}
-	g := &c14gen{r: c.Rng}
+	g := &c14gen{r: c.Rng, forceCount: -1}
 	prod := uint32(config.ExcessiveBlockSize)
 	ebsFor := func() uint32 {
 		switch k := c.Rng.Intn(20); {
@@ -410,7 +426,7 @@ func runC14(c *Ctx) error {
 	run := func(input string) error { return r.runCase(input, c14Class(input)) }
 
 	// 2. payload-level round trips: every modelled kind x protocol versions x field values
-	nP := c.Pick(400, 12000)
+	nP := c.Pick(700, 12000)
 	for _, kind := range c14Modelled {
 		for i := 0; i < nP; i++ {
 			pver := g.pver()
@@ -425,8 +441,28 @@ func runC14(c *Ctx) error {
 			}
 		}
 	}
+	// 2b. every list kind with exactly limit-1, limit and limit+1 elements
+	limits := map[string]int{"addr": wire.MaxAddrPerMsg, "getblocks": wire.MaxBlockLocatorsPerMsg, "getheaders": wire.MaxBlockLocatorsPerMsg,
+		"headers": wire.MaxBlockHeadersPerMsg, "inv": wire.MaxInvPerMsg, "getdata": wire.MaxInvPerMsg, "notfound": wire.MaxInvPerMsg}
+	for _, kind := range []string{"addr", "getblocks", "getheaders", "headers", "inv", "getdata", "notfound"} {
+		for _, d := range []int{-1, 0, 1} {
+			g.forceCount = limits[kind] + d
+			m := g.msg(kind, 70013, false, false)
+			g.forceCount = -1
+			if err := run(fmt.Sprintf("P %d %d %s", 70013, prod, c14Summarize(m))); err != nil {
+				return err
+			}
+			framed := kind == "addr" || kind == "getheaders" || kind == "getblocks" ||
+				(c.Thorough() && (kind == "headers" || (kind == "inv" && d == 0)))
+			if framed {
+				if err := run(fmt.Sprintf("F %d %d %d %s", 70013, prod, uint32(wire.MainNet), c14Summarize(m))); err != nil {
+					return err
+				}
+			}
+		}
+	}
 	// 3. framed round trips (the model hashes: keep most payloads small)
-	nF := c.Pick(60, 1500)
+	nF := c.Pick(100, 1500)
 	for _, kind := range c14Modelled {
 		for i := 0; i < nF; i++ {
 			pver := g.pver()
@@ -447,6 +483,7 @@ func runC14(c *Ctx) error {
 	if err := r.hostile(g, run); err != nil {
 		return err
 	}
+	_ = os.Remove(filepath.Join(c.Out, "c14_inflight.txt"))
 	c.Meta("alloc_measurements_too_close_to_threshold_not_emitted", strconv.Itoa(r.dropped))
 	c.Meta("alloc_threshold", "32 MiB + 4 x MaxPayloadLength(type, pver); measured with runtime/metrics /gc/heap/allocs:bytes around each decode")
 	return nil
